@@ -86,6 +86,47 @@ theorem from_public_point_object (E : Ext) (c : Curve) (hn : c.n ≠ 0) (validat
   | none => simp only [fromPublicPointObj] at h; injection h with h; exact h.symm
   | some xy => exact fromPublicPoint_err E c xy.1 xy.2 validate e h
 
+/-- **point objects of the point-arithmetic model** (`KeysWire.fromPublicPointPt` on `Curve.Pt`; the correspondence drives it
+with real `PointJacobi(X, Y, Z)` objects, Z ≠ 1 included): acceptance with validation on ⇔ the object is not INFINITY, its
+`x()` and `y()` (the Curve model's `pjX` / `pjY`: an inversion of Z for a Jacobian representative; the stored coordinates
+of a legacy `Point`) return integers x, y, and these satisfy the coordinate criterion (range, curve equation, subgroup
+test); the key then holds (x, y).  A refusal is `MalformedPointError`, or the exception `x()` / `y()` themselves raise
+(only possible for a `PointJacobi` whose Z is a non-zero multiple of p: `inverse_mod` → `ValueError`). -/
+theorem from_public_point_via_xy (E : Ext) (c : Curve) (hn : c.n ≠ 0) (pt : Curve.Pt) (k : VK) :
+    (KeysWire.fromPublicPointPt E c pt true = .ok k ↔
+      ∃ x y : Int, KeysWire.pointCoords pt = .ok (x, y) ∧
+        0 ≤ x ∧ 0 ≤ y ∧ x < c.p ∧ y < c.p ∧ onCurve c x y = true ∧ (c.h ≠ 1 → E.subgroupOk c x.toNat y.toNat = true) ∧
+        k = ⟨c, x.toNat, y.toNat⟩) ∧
+    (∀ v e, KeysWire.fromPublicPointPt E c pt v = .error e → e = .malformedPoint ∨ KeysWire.pointCoords pt = .error e) ∧
+    (KeysWire.pointCoords .infinity = .error .malformedPoint) ∧
+    (∀ A : Curve.AffPt, KeysWire.pointCoords (.aff A) = .ok (A.x, A.y)) ∧
+    (∀ P : Curve.PJ, P.z = 1 → KeysWire.pointCoords (.jac P) = .ok (P.x, P.y)) := by
+  refine ⟨?_, ?_, rfl, fun _ => rfl, ?_⟩
+  · unfold KeysWire.fromPublicPointPt
+    cases hc : KeysWire.pointCoords pt with
+    | error e =>
+      simp only
+      constructor
+      · intro h; cases h
+      · rintro ⟨x, y, h, _⟩; cases h
+    | ok xy =>
+      obtain ⟨x0, y0⟩ := xy
+      simp only
+      rw [from_public_point_accepts_iff_partial E c hn]
+      constructor
+      · rintro ⟨a, b, c1, d, e1, f, g⟩; exact ⟨x0, y0, rfl, a, b, c1, d, e1, f, g⟩
+      · rintro ⟨x, y, h, rest⟩
+        injection h with h; injection h with hx hy; subst hx hy; exact rest
+  · intro v e h
+    unfold KeysWire.fromPublicPointPt at h
+    cases hc : KeysWire.pointCoords pt with
+    | error e' => rw [hc] at h; simp only at h; injection h with h; subst h; exact Or.inr rfl
+    | ok xy =>
+      rw [hc] at h; simp only at h
+      exact Or.inl (fromPublicPoint_err E c xy.1 xy.2 v e h)
+  · intro P hz
+    simp [KeysWire.pointCoords, Curve.pjX, Curve.pjY, hz, bind, Except.bind]
+
 /-- the encoder's output is accepted and denotes the same point: completeness of the four forms -/
 theorem to_string_is_accepted (E : Ext) (k : VK) (hp : k.curve.p.Prime) (hodd : k.curve.p % 2 = 1) (hn : k.curve.n ≠ 0)
     (hsqrt : SqrtSpec E.sqrtModP k.curve.p) (hv : ValidPoint E k.curve k.x k.y) (enc : PointEnc)
